@@ -153,3 +153,44 @@ class Spec:
 
     def mul(self, a, b):
         raise Refuse("no matrix product")
+
+
+class LeanLemmas:
+    """spec-level glue lemmas checked by Lean 4 + Mathlib (thorough tier only: loading Mathlib takes ~1-2 min)"""
+    kind = 'P'
+
+    def __init__(self, prop, name, path, theorems, note=""):
+        self.prop, self.name, self.path, self.theorems, self.note = prop, name, path, theorems, note
+        self.functions = [f"lean:{path}:{t}" for t in theorems]
+
+    def obligations(self, tier):
+        if tier == 'thorough':
+            yield f"{self.prop}.{self.name}", None
+
+    def run(self, obname, payload, tier, seed):
+        import os, shutil, subprocess
+        t0 = time.time()
+        out = {"name": obname, "engine": "P", "functions": self.functions, "clauses": {}, "stats": {"backend": "lean4+mathlib (spec-level lemma, no code involved)"}}
+        root = os.path.dirname(os.path.dirname(os.path.abspath(__file__)))
+        if not shutil.which("lean"):
+            out.update(status="undecided", detail="lean not on PATH")
+            return out
+        try:
+            pr = subprocess.run(["lean", os.path.join(root, self.path)], capture_output=True, text=True, timeout=800, cwd=root)
+        except subprocess.TimeoutExpired:
+            out.update(status="undecided", detail="lean timed out")
+            return out
+        txt = pr.stdout + pr.stderr
+        src = open(os.path.join(root, self.path)).read()
+        bad = pr.returncode != 0 or "error" in txt.lower() or "sorry" in src
+        for t in self.theorems:
+            ok = (not bad) and (f"theorem {t}" in src)
+            out["clauses"][f"lemma:{t}"] = ["proved" if ok else "undecided", "lean"]
+        out["status"] = "proved" if all(v[0] == "proved" for v in out["clauses"].values()) else "undecided"
+        out["detail"] = "" if out["status"] == "proved" else txt[-1500:]
+        out["stats"]["wall_s"] = round(time.time() - t0, 1)
+        return out
+
+
+def lean_lemmas(prop, name, path, theorems, note=""):
+    api.REGISTRY.setdefault(prop, []).append(LeanLemmas(prop, name, path, theorems, note))
